@@ -61,8 +61,11 @@ def documented_kinds(fn_node):
 
 
 def may_be_tuple(doc_text):
-  return bool(re.search(r'\btuples?\b', doc_text or '', re.I)) and bool(
-      re.search(r'\blists?\b', doc_text or '', re.I))
+  d = doc_text or ''
+  if re.search(r'\b(iterable|sequence)\b', d, re.I):
+    return True
+  return bool(re.search(r'\btuples?\b', d, re.I)) and bool(
+      re.search(r'\blists?\b', d, re.I))
 
 
 def _is_list_display(e):
@@ -88,6 +91,17 @@ class _Kinds(object):
     self.prog = prog
     self.fn = fn
     self.docs = documented_kinds(fn.node)
+    # "X hyperparameter of `Lattice` layer": the kind is documented on the
+    # layer's constructor
+    if prog is not None and hasattr(prog, 'all_classes'):
+      for p, d in list(self.docs.items()):
+        m = re.search(r'hyperparameter of\s+`?(?:tfl\.layers\.)?(\w+)`?', d)
+        if m:
+          for c in prog.all_classes():
+            if c.name == m.group(1) and c.find_method('__init__') is not None:
+              cd = documented_kinds(c.find_method('__init__').node)
+              if p in cd:
+                self.docs[p] = cd[p]
     self.cfg = CFG(fn.node)
     self.rd = ReachingDefs(self.cfg, params=fn.all_params)
     self._memo = {}
@@ -153,6 +167,16 @@ def check_function(prog, res, fn, rule='T3'):
     if not (isinstance(e, ast.BinOp) and isinstance(e.op, ast.Add)):
       continue
     for disp, other in ((e.left, e.right), (e.right, e.left)):
+      # `(x or [])` is a list only when x is omitted: it is x otherwise
+      if isinstance(other, ast.BoolOp) and isinstance(other.op, ast.Or) and \
+          other.values and _base_name(other.values[0]) is not None and any(
+              _is_list_display(v) for v in other.values[1:]):
+        disp_like = _is_list_display(disp) or (
+            isinstance(disp, ast.BoolOp) and isinstance(disp.op, ast.Or) and
+            any(_is_list_display(v) for v in disp.values[1:]))
+        if disp_like:
+          other = other.values[0]
+          disp = ast.List(elts=[], ctx=ast.Load())
       if not _is_list_display(disp):
         continue
       b = _base_name(other)
